@@ -2,7 +2,7 @@
 import json
 import os
 import re
-from vlib import Infra
+from vlib import Infra, panic_site
 from proxyfam import report
 
 LEVEL = "exploration"
@@ -56,10 +56,10 @@ def crash_loop(ctx, q, beh, recv, crashes, allfails):
         if not m or not os.path.exists(cur):
             raise Infra("robust driver failed without a panic:\n" + out[-4000:])
         c = json.load(open(cur))
-        frames = [f for f in re.findall(r"^\s+(\S+\.go):\d+", out, re.M) if "/src/" in f and "zz_vf_" not in f and "_test.go" not in f]
-        site = os.path.basename(frames[0]) if frames else "?"
-        line = re.search(r"^\s+\S+/src/(\w+\.go:\d+)", out, re.M)
-        crashes.append({"case": "recv%d-" % recv + c["case"], "cls": c.get("cls", ""), "panic": m.group(1)[:160], "site": line.group(1) if line else site, "hex": c["hex"][:4000], "out": out[-6000:]})
+        ps = panic_site(out, ctx.srcdir())
+        if not ps or not ps[2]:
+            raise Infra("robust driver died outside the repository's code:\n" + out[-4000:])
+        crashes.append({"case": "recv%d-" % recv + c["case"], "cls": c.get("cls", ""), "panic": m.group(1)[:160], "site": "%s:%s" % (ps[0], ps[1]), "hex": c["hex"][:4000], "out": out[-6000:]})
         with open(skipf, "a") as f:
             if c.get("cls", "").startswith("kind="):
                 pairs = [x for x in c["cls"].split(" ") if not x.endswith("=ok") and not x.endswith("=none") and not x.startswith(("kind=", "tr="))]
